@@ -482,6 +482,17 @@ pub fn judge(p: &NetPlan, o: &HttpOutcome, s: &Side, verbose: bool) -> Judgement
                 if h.span.hi < k.t || h.span.lo > hi { continue; }
                 if k.t < h.span.lo && h.span.hi < lo { dropped = true; } else { optional = true; }
             }
+            // a result that lands while the cluster has no health check (an AddCluster without one removed it and reset the
+            // members to healthy; the probe itself stays in flight) is not recorded (fix C12-H2): dropped when the cluster
+            // definitely has none over the whole interval, either way when that is uncertain
+            {
+                let last_before = m.hc[c].iter().filter(|h| h.span.hi < lo).last();
+                let overlapping: Vec<&HcCfg> = m.hc[c].iter().filter(|h| h.span.lo <= hi && h.span.hi >= lo).collect();
+                let none_before = last_before.map_or(false, |h| h.hc.is_none());
+                if overlapping.is_empty() { if none_before { dropped = true; } }
+                else if none_before && overlapping.iter().all(|h| h.hc.is_none()) { dropped = true; }
+                else if none_before || overlapping.iter().any(|h| h.hc.is_none()) { optional = true; }
+            }
             // the worker closed the probe socket before any result (cluster configuration dropped, worker stopping)
             if k.t_close != 0 && k.t_close + EPS < lo { dropped = true; }
             if dropped { m.probe("probe_dropped_in_flight"); continue; }
